@@ -87,13 +87,15 @@ def as_sbytes(interp, v, maxlen=64):
     return None
 
 
-def pack_values(interp, fmt, vals):
+def pack_values(interp, fmt, vals, out=None):
+    """`out` (optional list) receives the bytes produced so far, so that pack_into can model CPython's
+    behaviour on a failing item: the region is zero-filled first and items are written one by one."""
     ctx = interp.ctx
     _, items = parse_fmt(fmt)
     need = sum(1 for c, n in items if c != "x")
     if len(vals) != need:
         struct_error(ctx, "pack expected %d items for packing (got %d)" % (need, len(vals)))
-    out = []
+    out = [] if out is None else out
     vi = 0
     for code, n in items:
         if code == "x":
@@ -315,6 +317,13 @@ class Models:
             return _NOTFOUND
         if obj is None:
             return _NOTFOUND
+        if isinstance(obj, I.Builtin) and obj.name in ("int", "bytes", "bytearray", "str", "dict", "list", "float"):
+            t = {"int": int, "bytes": bytes, "bytearray": bytearray, "str": str, "dict": dict, "list": list,
+                 "float": float}[obj.name]
+            m = self.methods.get((t, name)) or (self.methods.get((bytes, name)) if t is bytearray else None)
+            if m is not None:
+                return m
+            raise Unsupported("%s.%s" % (obj.name, name))
         if isinstance(obj, I._IterVal):
             return _NOTFOUND
         raise Unsupported("attribute %s of %s" % (name, type(obj).__name__))
@@ -540,8 +549,12 @@ class Models:
             if isinstance(x, (tuple, str, range, frozenset)):
                 return len(x)
             if isinstance(x, I.SList):
+                if x.base is not None:
+                    return binop("+", x.base.length, len(x.items))
                 return len(x.items)
             if isinstance(x, I.SDict):
+                if x.base is not None:
+                    raise Unsupported("len of opaque dict")
                 return len(x.d)
             if isinstance(x, SObj):
                 f = interp.find_class_attr(x.cls, "__len__")
@@ -1084,6 +1097,9 @@ class Models:
 
         @meth(list, "remove")
         def _lremove(interp, l, x):
+            if l.base is not None and truth(interp.opaque_contains(l.base, x)):
+                l.base = interp.opaque_remove_first(l.base, x)
+                return
             for i, y in enumerate(l.items):
                 if truth(interp.equals(y, x)):
                     del l.items[i]
@@ -1140,6 +1156,12 @@ class Models:
 
         @meth(dict, "setdefault")
         def _dsetdefault(interp, d, k, default=None):
+            if d.base is not None:
+                r = interp.pdict_lookup(d, k)
+                if r is I.ABSENT:
+                    interp.pdict_store(d, k, default)
+                    return default
+                return r
             r = interp.dict_get(d, k, _NOTFOUND, False)
             if r is _NOTFOUND:
                 interp.setitem(d, k, default)
@@ -1258,8 +1280,17 @@ class Models:
                 offset += n
             if n - offset < size:
                 struct_error(ctx, "pack_into requires a buffer of at least %d bytes" % (size + offset))
-            items = pack_values(interp, fmt, list(vals))
-            buf.items[offset:offset + size] = items
+            _, codes = parse_fmt(fmt)
+            if len(vals) != sum(1 for c, n in codes if c != "x"):
+                struct_error(ctx, "pack_into expected %d items for packing" % len(codes))
+            done = []
+            try:
+                pack_values(interp, fmt, list(vals), done)
+            except PyRaise:
+                # CPython zero-fills the target region, then writes item by item until the failing one
+                buf.items[offset:offset + size] = (done + [0] * size)[:size]
+                raise
+            buf.items[offset:offset + size] = done
 
         for nm, fn in (("pack", m_pack), ("unpack", m_unpack), ("unpack_from", m_unpack_from),
                        ("pack_into", m_pack_into)):
@@ -1328,7 +1359,13 @@ class Models:
         import time as _time
 
         def t_time(interp):
-            return Opaque("float")
+            # time as integer ticks, monotone along a path (real-time behaviour is not decided)
+            last = interp.ctx.__dict__.get("_now")
+            now = interp.ctx.fresh_int("now", 0 if last is None else None, 1 << 40)
+            if last is not None:
+                interp.ctx.assume(compare(">=", now, last))
+            interp.ctx.__dict__["_now"] = now
+            return now
         for nm in ("time", "monotonic", "perf_counter"):
             self.modattrs[("time", nm)] = B("time." + nm, t_time)
             self.callables[getattr(_time, nm)] = self.modattrs[("time", nm)]
